@@ -53,7 +53,8 @@ func newCodecEnvFrom(name string, model *tModel, ct *compiledTypes) *codecEnv {
 	env.codec = j5codec.NewCodec(j5codec.WithResolver(ct.Types), j5codec.WithProtoToAny())
 	for _, m := range model.allMsgs() {
 		env.roots = append(env.roots, m.Full)
-		if !m.Wrapper && !hasAnyField(m) {
+		if !hasAnyField(m) {
+			// oneof wrappers are messages like any other: usable as Any payload
 			env.inner = append(env.inner, m.Full)
 		} else if !m.Wrapper {
 			env.innerDeep = append(env.innerDeep, m.Full)
